@@ -248,15 +248,15 @@ def oracle(case):
         return (f"estimate {est!r} is not sqrt((n-d)/(d*N) * sum (theta_i - mean)^2) = {math.sqrt(float(want))!r} "
                 f"(n={n}, d={d}, N={N}; ratio of the squares {float(got / want) if want else float('inf')!r})")
     if case["stat"] in HOMOGENEOUS:
-        for cfac in (2.0, -0.5):
+        for cfac in (2.0, -0.5, 2.0 ** -30, -(2.0 ** 24)):        # powers of two: the scaled run is exact, any unit of measurement
             e2 = obj.compute_jackknife_estimates(data * cfac, fn_plain, 2, *args, **kwargs)
             if float(e2).hex() != float(abs(cfac) * est).hex():
                 return f"data multiplied by {cfac}: estimate {float(e2)!r}, expected |c| * estimate = {abs(cfac) * est!r}"
     if case["stat"] == "mean":
-        a = 3.0
-        e3 = float(obj.compute_jackknife_estimates(data + a, fn_plain, 2, *args, **kwargs))
-        if abs(e3 - est) > 1e-9 * max(est, abs(a), 1.0):
-            return f"data shifted by {a}: estimate of the mean changes from {est!r} to {e3!r}"
+        for a in (3.0, 1048576.0):              # a large offset too (rounding of data + a grows with a: tolerance relative to it)
+            e3 = float(obj.compute_jackknife_estimates(data + a, fn_plain, 2, *args, **kwargs))
+            if abs(e3 - est) > 1e-9 * max(est, abs(a), 1.0):
+                return f"data shifted by {a}: estimate of the mean changes from {est!r} to {e3!r}"
     # earlier calls: the object has meanwhile seen data of ANOTHER length; the value for this data must be the same again
     if n >= 4:
         other = np.concatenate([data, data])[: 2 * n - 1] if n % 2 else data[: n - 1 - (n // 3)]
